@@ -345,104 +345,216 @@ def check_support(ctx, R="C05.support"):
     )
     model = ctx.model
     f = model.func(DI, "OperatorDistribution.supportInterval")
-    table = {
-        "__add__": ("l1 + l2", "r1 + r2"),
-        "__radd__": ("l1 + l2", "r1 + r2"),
-        "__sub__": ("l1 - r2", "r1 - l2"),
-        "__rsub__": ("l2 - r1", "r2 - l1"),
-    }
-    branches = {}
-    for s in ast.walk(f):
-        if isinstance(s, ast.If):
-            ops = _ops_of_test(s.test)
-            if ops:
-                asg = {}
-                for b in s.body:
-                    if isinstance(b, ast.Assign) and len(b.targets) == 1 and isinstance(b.targets[0], ast.Name):
-                        asg[b.targets[0].id] = b.value
-                for o in ops:
-                    branches.setdefault(o, []).append((s, asg, len(ops)))
-    for o in branches:
-        branches[o] = [(s, asg) for s, asg, _ in sorted(branches[o], key=lambda x: x[2])]
-    # discover the names of the four bounds
+    # discover the names of the four bounds (binary operators) and of the two bounds of the unary branch
     unp = [n for n in walk_local(f) if isinstance(n, ast.Assign) and isinstance(n.targets[0], ast.Tuple) and isinstance(n.value, ast.Call) and dotted(n.value.func) == "supportInterval"]
     names = {}
     for n in unp:
         a = unparse(n.value.args[0])
         els = [e.id for e in n.targets[0].elts if isinstance(e, ast.Name)]
-        if a == "self.object" and len(els) == 2:
-            names["l1"], names["r1"] = els
-        elif a == "self.operands[0]" and len(els) == 2:
+        if a == "self.operands[0]" and len(els) == 2:
             names["l2"], names["r2"] = els
-    if len(names) < 4:
+    for n in unp:
+        a = unparse(n.value.args[0])
+        els = [e.id for e in n.targets[0].elts if isinstance(e, ast.Name)]
+        if a == "self.object" and len(els) == 2:
+            # the binary branch unpacks self.object next to self.operands[0]; the unary branch unpacks it alone
+            sib = [m for m in unp if m is not n and getattr(m, "_parent", None) is getattr(n, "_parent", None) and unparse(m.value.args[0]) == "self.operands[0]"]
+            if sib:
+                names["l1"], names["r1"] = els
+            else:
+                names["l"], names["r"] = els
+    if not all(k in names for k in ("l1", "r1", "l2", "r2")):
         raise AnalysisError("shape not recognised: OperatorDistribution.supportInterval bound names")
-    ren = {v: k for k, v in names.items()}
-    # the names of the two results: the `return <lo>, <hi>` that closes the binary-operator branch
-    res = [
-        r
-        for r in lib.returns_of(f)
-        if isinstance(r.value, ast.Tuple) and len(r.value.elts) == 2 and all(isinstance(e, ast.Name) for e in r.value.elts)
-        and not {e.id for e in r.value.elts} & set(ren)
-    ]
-    if not res:
-        raise AnalysisError("shape not recognised: OperatorDistribution.supportInterval result names")
-    lo_name, hi_name = (e.id for e in res[0].value.elts)
-    for o in branches:
-        fixed = []
-        for s, asg in branches[o]:
-            a2 = dict(asg)
-            if lo_name in asg:
-                a2["l"] = asg[lo_name]
-            if hi_name in asg:
-                a2["r"] = asg[hi_name]
-            fixed.append((s, a2))
-        branches[o] = fixed
-    ren[lo_name], ren[hi_name] = "l", "r"
+    bound_names = set(names.values())
 
-    def canon(e):
-        return lib._Rename(ren).visit(ast.parse(unparse(e), mode="eval").body)
+    def canon_env(env, unary):
+        """substitution that maps the method's own names for the operand bounds to l1/r1/l2/r2 (binary) or l/r (unary)"""
+        e2 = dict(env)
+        ren = {names[k]: k for k in (("l", "r") if unary else ("l1", "r1", "l2", "r2")) if k in names}
+        for k, v in list(env.items()):
+            if isinstance(v, ast.Name) and v.id.startswith("<") and "@" in v.id:
+                base = v.id[1:].split("@")[0]
+                if base in ren and k == base:
+                    e2[k] = ast.Name(id="_b_" + ren[base], ctx=ast.Load())
+        return e2
+
+    def resolve(e, env, depth=0):
+        """e with locals replaced by their values on this path (opaque operand bounds become _b_l1 ...)"""
+        if depth > 8:
+            return e
+
+        class T(ast.NodeTransformer):
+            def visit_Name(self, n):
+                if n.id in env and isinstance(n.ctx, ast.Load):
+                    v = env[n.id]
+                    if isinstance(v, ast.Name) and v.id == n.id:
+                        return n
+                    return resolve(v, env, depth + 1)
+                return n
+
+        return T().visit(lib._clone(e))
+
+    def atoms_of(asm, env):
+        """the path's assumptions as a set of canonical true comparisons over _b_l1 ..."""
+        out = set()
+        for t0, v in lib.assumption_atoms(asm):
+            t = resolve(t0, env)
+            if not v:
+                t = _negate_order(t)
+            out.add(lib.ctext(t))
+        return out
+
+    def decide_for(op):
+        def decide(test, env, asm):
+            if isinstance(test, ast.BoolOp):
+                vals = [decide(v, env, asm) for v in test.values]
+                if isinstance(test.op, ast.Or):
+                    if any(v is True for v in vals):
+                        return True
+                    return False if all(v is False for v in vals) else None
+                if any(v is False for v in vals):
+                    return False
+                return True if all(v is True for v in vals) else None
+            if isinstance(test, ast.UnaryOp) and isinstance(test.op, ast.Not):
+                v = decide(test.operand, env, asm)
+                return None if v is None else not v
+            if isinstance(test, ast.Compare) and len(test.ops) == 1:
+                l, o, r = test.left, test.ops[0], test.comparators[0]
+                if unparse(r) == "self.operator" and isinstance(o, (ast.Eq, ast.NotEq)):
+                    l, r = r, l
+                if unparse(l) == "self.operator":
+                    try:
+                        val = ast.literal_eval(r)
+                    except Exception:
+                        return None
+                    if isinstance(o, ast.Eq):
+                        return op == val
+                    if isinstance(o, ast.NotEq):
+                        return op != val
+                    if isinstance(o, ast.In):
+                        return op in val
+                    if isinstance(o, ast.NotIn):
+                        return op not in val
+                # the operands' supports are known on the paths compared with the table
+                if isinstance(o, (ast.Is, ast.IsNot)) and isinstance(r, ast.Constant) and r.value is None and isinstance(l, ast.Name) and l.id in bound_names:
+                    return isinstance(o, ast.IsNot)
+            return None
+
+        return decide
+
+    def is_none(e):
+        return isinstance(e, ast.Constant) and e.value is None
+
+    def results(op, unary):
+        out = []
+        for asm, env, ex in lib.enumerate_paths(f, decide=decide_for(op)):
+            if isinstance(ex, ast.Raise) or ex is None:
+                continue
+            env = canon_env(env, unary)
+            v = resolve(ex.value, env) if ex.value is not None else None
+            if not (isinstance(v, ast.Tuple) and len(v.elts) == 2):
+                out.append((ex, None, None, set()))
+                continue
+            out.append((ex, v.elts[0], v.elts[1], atoms_of(asm, env)))
+        return out
+
+    def same(e, want):
+        try:
+            return equal(lin(e), lin_src(want))
+        except RecursionError:
+            return False
 
     nchk = 0
+    table = {
+        "__add__": ("_b_l1 + _b_l2", "_b_r1 + _b_r2"),
+        "__radd__": ("_b_l1 + _b_l2", "_b_r1 + _b_r2"),
+        "__sub__": ("_b_l1 - _b_r2", "_b_r1 - _b_l2"),
+        "__rsub__": ("_b_l2 - _b_r1", "_b_r2 - _b_l1"),
+    }
+
+    def T(text):
+        return text.replace("_b_", "")
+
     for op, (wl, wr) in table.items():
-        for s, asg in branches.get(op, []):
-            if "l" in asg and "r" in asg:
-                nchk += 1
-                if equal(lin(canon(asg["l"])), lin_src(wl)) and equal(lin(canon(asg["r"])), lin_src(wr)):
-                    ctx.ok(R, s, f"support of {op}: [{wl}, {wr}]")
-                else:
-                    ctx.finding(R, s, f"support formula {op}", f"support of `{op}` is computed as [{unparse(asg['l'])}, {unparse(asg['r'])}], interval arithmetic requires [{wl}, {wr}]")
-    for op in ("__mul__", "__rmul__"):
-        for s, asg in branches.get(op, []):
-            pn = [k for k, v in asg.items() if isinstance(v, ast.Tuple) and len(v.elts) == 4]
-            if pn:
-                pn = pn[0]
-                nchk += 1
-                got = {tuple(sorted(lin(canon(e)).items())) for e in asg[pn].elts}
-                want = {tuple(sorted(lin_src(x).items())) for x in ("l1 * l2", "l1 * r2", "r1 * l2", "r1 * r2")}
-                lo, hi = unparse(asg.get("l", ast.Constant(None))), unparse(asg.get("r", ast.Constant(None)))
-                if got == want and lo in (f"min(*{pn})", f"min({pn})") and hi in (f"max(*{pn})", f"max({pn})"):
-                    ctx.ok(R, s, f"support of {op}: min/max of the four endpoint products")
-                else:
-                    ctx.finding(R, s, f"support formula {op}", f"support of `{op}` is not [min, max] of the four endpoint products")
-                break
-    for op, num, den in (("__truediv__", ("l1", "r1"), ("l2", "r2")), ("__rtruediv__", ("l2", "r2"), ("l1", "r1"))):
-        for s, asg in branches.get(op, []):
-            inner = [x for x in s.body if isinstance(x, ast.If)]
-            if not inner:
-                continue
+        for ex, lo, hi, atoms in results(op, False):
             nchk += 1
-            t = lib.ctext(canon(inner[0].test))
-            a2 = {ren.get(b.targets[0].id, b.targets[0].id): lib.ctext(canon(b.value)) for b in inner[0].body if isinstance(b, ast.Assign) and isinstance(b.targets[0], ast.Name)}
-            nl, nr = num
-            dl, dr = den
-            want_l = f"{nl} / {dr} if {nl} >= 0 else {nl} / {dl}"
-            want_r = f"{nr} / {dl} if {nr} >= 0 else {nr} / {dr}"
-            if t == lib.ctext_of(f"{dl} > 0") and a2.get("l") == lib.ctext_of(want_l) and a2.get("r") == lib.ctext_of(want_r):
-                ctx.ok(R, s, f"support of {op}: sign-guarded quotient for a positive divisor")
+            if lo is not None and same(lo, wl) and same(hi, wr):
+                ctx.ok(R, ex, f"support of {op}: [{T(wl)}, {T(wr)}]")
             else:
-                ctx.finding(R, s, f"support formula {op}", f"support of `{op}`: expected `if {dl} > 0: l = {want_l}; r = {want_r}`, found test `{t}` l=`{a2.get('l')}` r=`{a2.get('r')}`")
-            break
-    ctx.floor(R, nchk, 6, "interval-arithmetic branches compared with the table")
+                ctx.finding(R, ex, f"support formula {op}", f"support of `{op}` is computed as [{T(unparse(lo)) if lo is not None else '?'}, {T(unparse(hi)) if hi is not None else '?'}], interval arithmetic requires [{T(wl)}, {T(wr)}]")
+    want_prods = {tuple(sorted(lin_src(x).items())) for x in ("_b_l1 * _b_l2", "_b_l1 * _b_r2", "_b_r1 * _b_l2", "_b_r1 * _b_r2")}
+
+    def extremum(e, fname):
+        """e is fname(the four endpoint products)"""
+        if not (isinstance(e, ast.Call) and dotted(e.func) == fname and not e.keywords):
+            return False
+        args = e.args
+        if len(args) == 1 and isinstance(args[0], ast.Starred):
+            args = [args[0].value]
+        if len(args) == 1 and isinstance(args[0], (ast.Tuple, ast.List)):
+            args = args[0].elts
+        return len(args) == 4 and {tuple(sorted(lin(a).items())) for a in args} == want_prods
+
+    for op in ("__mul__", "__rmul__"):
+        for ex, lo, hi, atoms in results(op, False):
+            nchk += 1
+            if lo is not None and extremum(lo, "min") and extremum(hi, "max"):
+                ctx.ok(R, ex, f"support of {op}: min/max of the four endpoint products")
+            else:
+                ctx.finding(R, ex, f"support formula {op}", f"support of `{op}` is not [min, max] of the four endpoint products")
+    for op, (nl, nr), (dl, dr) in (("__truediv__", ("_b_l1", "_b_r1"), ("_b_l2", "_b_r2")), ("__rtruediv__", ("_b_l2", "_b_r2"), ("_b_l1", "_b_r1"))):
+        for ex, lo, hi, atoms in results(op, False):
+            nchk += 1
+            if lo is None:
+                ctx.finding(R, ex, f"support formula {op}", f"support of `{op}`: a path returns something other than a pair of bounds")
+                continue
+            if lib.ctext_of(f"{dl} > 0") not in atoms:
+                # divisor not known to be positive: only "unknown" is a sound answer the table accepts
+                if is_none(lo) and is_none(hi):
+                    ctx.ok(R, ex, f"support of {op}: unknown unless the divisor is positive")
+                else:
+                    ctx.finding(R, ex, f"support formula {op}", f"support of `{op}`: on a path where the divisor's lower bound `{T(dl)}` is not known to be positive (assumed: {sorted(T(a) for a in atoms)}) the result is [{T(unparse(lo))}, {T(unparse(hi))}] rather than unknown")
+                continue
+            wl = f"{nl} / {dr}" if lib.ctext_of(f"{nl} >= 0") in atoms else f"{nl} / {dl}" if lib.ctext_of(f"{nl} < 0") in atoms else None
+            wr = f"{nr} / {dl}" if lib.ctext_of(f"{nr} >= 0") in atoms else f"{nr} / {dr}" if lib.ctext_of(f"{nr} < 0") in atoms else None
+            if wl and wr and same(lo, wl) and same(hi, wr):
+                ctx.ok(R, ex, f"support of {op}: sign-guarded quotient for a positive divisor ({sorted(T(a) for a in atoms)})")
+            else:
+                ctx.finding(
+                    R,
+                    ex,
+                    f"support formula {op}",
+                    f"support of `{op}`: for a positive divisor the bounds must be l = {T(nl)} / {T(dr)} if {T(nl)} >= 0 else {T(nl)} / {T(dl)}; r = {T(nr)} / {T(dl)} if {T(nr)} >= 0 else {T(nr)} / {T(dr)}; "
+                    f"on the path assuming {sorted(T(a) for a in atoms)} the result is [{T(unparse(lo))}, {T(unparse(hi))}]",
+                )
+    if "l" in names:
+        for ex, lo, hi, atoms in results("__neg__", True):
+            nchk += 1
+            if lo is not None and same(lo, "-_b_r") and same(hi, "-_b_l"):
+                ctx.ok(R, ex, "support of __neg__: [-r, -l]")
+            else:
+                ctx.finding(R, ex, "support formula __neg__", f"support of `__neg__` is [{T(unparse(lo)) if lo is not None else '?'}, {T(unparse(hi)) if hi is not None else '?'}], negation requires [-r, -l]")
+        for ex, lo, hi, atoms in results("__abs__", True):
+            nchk += 1
+            if lo is None:
+                ctx.finding(R, ex, "support formula __abs__", "support of `__abs__`: a path returns something other than a pair of bounds")
+                continue
+            if lib.ctext_of("_b_r < 0") in atoms:
+                good = same(lo, "-_b_r") and same(hi, "-_b_l")
+                want = "[-r, -l] (all values negative)"
+            elif lib.ctext_of("_b_l < 0") in atoms and lib.ctext_of("_b_r >= 0") in atoms:
+                good = isinstance(lo, ast.Constant) and lo.value == 0 and isinstance(hi, ast.Call) and dotted(hi.func) == "max" and len(hi.args) == 2 and {tuple(sorted(lin(a).items())) for a in hi.args} == {tuple(sorted(lin_src(x).items())) for x in ("-_b_l", "_b_r")}
+                want = "[0, max(-l, r)] (the interval straddles zero)"
+            elif lib.ctext_of("_b_l >= 0") in atoms:
+                good = same(lo, "_b_l") and same(hi, "_b_r")
+                want = "[l, r] (all values non-negative)"
+            else:
+                good, want = False, "one of [-r, -l] / [0, max(-l, r)] / [l, r] chosen by the signs of l and r"
+            if good:
+                ctx.ok(R, ex, f"support of __abs__: {want}")
+            else:
+                ctx.finding(R, ex, "support formula __abs__", f"support of `__abs__`: on the path assuming {sorted(T(a) for a in atoms)} the result is [{T(unparse(lo))}, {T(unparse(hi))}], required {want}")
+    ctx.floor(R, nchk, 8, "interval-arithmetic result paths compared with the table")
     # (b) None flow in every supportInterval method
     nn = 0
     for ci in core_classes_with(model, "supportInterval"):
@@ -505,6 +617,18 @@ def check_support(ctx, R="C05.support"):
         ctx.ok(R, fn, "unionOfSupports = (None-aware min of lower bounds, None-aware max of upper bounds)")
     else:
         ctx.finding(R, fn, "unionOfSupports", "unionOfSupports is not (supmin(*mins), supmax(*maxes))")
+
+
+_INV_ORDER = {ast.Lt: ast.GtE, ast.GtE: ast.Lt, ast.Gt: ast.LtE, ast.LtE: ast.Gt}
+
+
+def _negate_order(t):
+    """`not t` for an ordering comparison of real bounds (no NaN: the bounds are finite or infinite reals)"""
+    if isinstance(t, ast.Compare) and len(t.ops) == 1 and type(t.ops[0]) in _INV_ORDER:
+        return ast.Compare(left=t.left, ops=[_INV_ORDER[type(t.ops[0])]()], comparators=t.comparators)
+    from ..model import negate
+
+    return negate(t)
 
 
 def _ops_of_test(t):
